@@ -68,6 +68,67 @@ func pathID(p string) int {
 type recorder struct {
 	mu sync.Mutex
 	ev [][]int
+	// overlapping requests: events of a request that carries an X-Rid header go to its own list
+	per map[int][][]int
+	bar *barrier
+}
+
+// barrier: handlers of overlapping requests wait here until all n of them have been entered, so that every
+// request has passed the whole middleware chain before any handler reads its body
+type barrier struct {
+	mu       sync.Mutex
+	n, seen  int
+	ch       chan struct{}
+	timeouts int
+}
+
+func newBarrier(n int) *barrier { return &barrier{n: n, ch: make(chan struct{})} }
+func (b *barrier) wait() {
+	b.mu.Lock()
+	b.seen++
+	if b.seen == b.n {
+		close(b.ch)
+	}
+	b.mu.Unlock()
+	select {
+	case <-b.ch:
+	case <-time.After(20 * time.Second): // not all requests arrived (environment): the scenario is re-run
+		b.mu.Lock()
+		b.timeouts++
+		b.mu.Unlock()
+	}
+}
+
+func ridOf(r *http.Request) int {
+	if v := r.Header.Get("X-Rid"); v != "" {
+		if i, err := strconv.Atoi(v); err == nil {
+			return i
+		}
+	}
+	return -1
+}
+func (r *recorder) addR(q *http.Request, e ...int) {
+	id := ridOf(q)
+	if id < 0 {
+		r.add(e...)
+		return
+	}
+	r.mu.Lock()
+	if r.per == nil {
+		r.per = map[int][][]int{}
+	}
+	r.per[id] = append(r.per[id], append([]int{}, e...))
+	r.mu.Unlock()
+}
+func (r *recorder) takeR(id int) [][]int {
+	r.mu.Lock()
+	defer r.mu.Unlock()
+	e := r.per[id]
+	delete(r.per, id)
+	if e == nil {
+		e = [][]int{}
+	}
+	return e
 }
 
 func (r *recorder) add(e ...int) {
@@ -158,6 +219,8 @@ type hop struct {
 
 func (o hop) coq() string {
 	switch o.Kind {
+	case "barrier":
+		return "OBarrier"
 	case "obs":
 		return "OObs"
 	case "read":
@@ -190,21 +253,25 @@ func opsCoq(ops []hop) string {
 func runOps(ops []hop, w http.ResponseWriter, r *http.Request, rec *recorder) {
 	obs := func() {
 		e := []int{2, methodID(r.Method), pathID(r.URL.Path)}
-		rec.add(append(e, projHdr(r.Header)...)...)
+		rec.addR(r, append(e, projHdr(r.Header)...)...)
 	}
 	for _, o := range ops {
 		switch o.Kind {
+		case "barrier":
+			if rec.bar != nil {
+				rec.bar.wait()
+			}
 		case "obs":
 			obs()
 		case "read":
 			buf := make([]byte, o.K)
 			n, _ := io.ReadFull(r.Body, buf)
-			rec.add(append([]int{3}, bytesToInts(buf[:n])...)...)
+			rec.addR(r, append([]int{3}, bytesToInts(buf[:n])...)...)
 		case "readall":
 			b, _ := io.ReadAll(r.Body)
-			rec.add(append([]int{3}, bytesToInts(b)...)...)
+			rec.addR(r, append([]int{3}, bytesToInts(b)...)...)
 		case "gethdr":
-			rec.add(append([]int{4}, projHdr(w.Header())...)...)
+			rec.addR(r, append([]int{4}, projHdr(w.Header())...)...)
 		case "set":
 			w.Header().Set("X-V-"+strconv.Itoa(o.K), strconv.Itoa(o.V))
 		case "status":
@@ -213,7 +280,7 @@ func runOps(ops []hop, w http.ResponseWriter, r *http.Request, rec *recorder) {
 			w.Write(intsToBytes(o.Bs))
 		case "echo":
 			b, _ := io.ReadAll(r.Body)
-			rec.add(append([]int{3}, bytesToInts(b)...)...)
+			rec.addR(r, append([]int{3}, bytesToInts(b)...)...)
 			w.Write(b)
 		case "echohdr":
 			obs()
@@ -253,9 +320,9 @@ func (m mwc) build(rec *recorder, lg *capLogger) httpMiddleware.HttpHandlerMiddl
 	case "rec":
 		return func(next http.HandlerFunc) http.HandlerFunc {
 			return func(w http.ResponseWriter, r *http.Request) {
-				rec.add(0, m.I)
+				rec.addR(r, 0, m.I)
 				next(w, r)
-				rec.add(1, m.I)
+				rec.addR(r, 1, m.I)
 			}
 		}
 	case "scr":
@@ -388,6 +455,7 @@ type scenario struct {
 	HTTPS      *listenerCfg
 	TLSInCfg   bool // certificate passed through WithTlsConfig instead of files
 	H2         bool
+	Overlap    bool // all requests are sent concurrently; their handlers meet at a barrier before reading
 	Reqs       []request
 	Grpc       []grpcReg // RegisterImplementation calls
 	GrpcInit   []grpcReg // registered by an initializer
@@ -581,15 +649,15 @@ func (g *gen) runOnce(sc *scenario) (err error, retry bool) {
 	mkHandler := func(l *listenerCfg, i int) http.HandlerFunc {
 		c := l.Calls[i]
 		return func(w http.ResponseWriter, r *http.Request) {
-			rec.add(7, i)
+			rec.addR(r, 7, i)
 			runOps(c.Ops, w, r, rec)
 		}
 	}
 	decoy := func(next http.HandlerFunc) http.HandlerFunc {
 		return func(w http.ResponseWriter, r *http.Request) {
-			rec.add(0, decoyRec)
+			rec.addR(r, 0, decoyRec)
 			next(w, r)
-			rec.add(1, decoyRec)
+			rec.addR(r, 1, decoyRec)
 		}
 	}
 	touch := func(rt map[string]map[string]http.HandlerFunc) { // what a caller of GetRoutes typically does: look, count
@@ -798,7 +866,67 @@ func (g *gen) runOnce(sc *scenario) (err error, retry bool) {
 		prot string
 	}
 	var obs []obsT
+	doReq := func(rq request, rid int) (obsT, error) {
+		var url string
+		if rq.Listener == 0 {
+			url = fmt.Sprintf("http://127.0.0.1:%d%s", httpPort, paths[rq.P])
+		} else {
+			url = fmt.Sprintf("https://127.0.0.1:%d%s", httpsPort, paths[rq.P])
+		}
+		var body io.Reader
+		if rq.Unsized {
+			body = struct{ io.Reader }{bytes.NewReader(intsToBytes(rq.B))}
+		} else if len(rq.B) > 0 {
+			body = bytes.NewReader(intsToBytes(rq.B))
+		}
+		hr, e := http.NewRequest(methods[rq.M], url, body)
+		if e != nil {
+			return obsT{}, e
+		}
+		for i := 0; i+1 < len(rq.H); i += 2 {
+			hr.Header.Set("X-V-"+strconv.Itoa(rq.H[i]), strconv.Itoa(rq.H[i+1]))
+		}
+		hr.Header.Set("X-Rid", strconv.Itoa(rid))
+		resp, e := client.Do(hr)
+		if e != nil {
+			return obsT{}, e
+		}
+		rb, e := io.ReadAll(resp.Body)
+		resp.Body.Close()
+		if e != nil {
+			return obsT{}, e
+		}
+		return obsT{resp.StatusCode, projHdr(resp.Header), bytesToInts(rb), nil, resp.Proto}, nil
+	}
+	if sc.Overlap {
+		rec.bar = newBarrier(len(sc.Reqs))
+		obs = make([]obsT, len(sc.Reqs))
+		errs := make([]error, len(sc.Reqs))
+		var cwg sync.WaitGroup
+		for i, rq := range sc.Reqs {
+			cwg.Add(1)
+			go func(i int, rq request) {
+				defer cwg.Done()
+				obs[i], errs[i] = doReq(rq, i)
+			}(i, rq)
+		}
+		cwg.Wait()
+		for i, e := range errs {
+			if e != nil {
+				return fmt.Errorf("overlapping request %d: %v", i, e), true
+			}
+			obs[i].ev = rec.takeR(i)
+			g.requests++
+		}
+		if rec.bar.timeouts > 0 {
+			return fmt.Errorf("overlapping requests did not all reach their handlers"), true
+		}
+		rec.take()
+	}
 	for _, rq := range sc.Reqs {
+		if sc.Overlap {
+			break
+		}
 		var url string
 		if rq.Listener == 0 {
 			url = fmt.Sprintf("http://127.0.0.1:%d%s", httpPort, paths[rq.P])
@@ -916,6 +1044,10 @@ func (g *gen) runOnce(sc *scenario) (err error, retry bool) {
 			rq.Listener, l.callsCoq(), l.mwCoq(), cw.B(l.Direct && len(l.Mw) == 1), cw.Z(rq.M), cw.Z(rq.P), cw.L(hs), zl(rq.B),
 			cw.Z(o.st), cw.L(ohs), zl(o.ob), zll(o.ev))
 		seqKey := ""
+		if sc.Overlap {
+			coq = "CHttpConc" + coq[len("CHttp"):]
+			seqKey = fmt.Sprintf("|overlap %d of %d", i, len(sc.Reqs))
+		}
 		if l.Seq != nil {
 			coq = fmt.Sprintf("CHttpSeq %d %s %s %s %s %s %s %s %s %s",
 				rq.Listener, l.opsCoq(), cw.Z(rq.M), cw.Z(rq.P), cw.L(hs), zl(rq.B), cw.Z(o.st), cw.L(ohs), zl(o.ob), zll(o.ev))
@@ -953,6 +1085,9 @@ func (g *gen) runOnce(sc *scenario) (err error, retry bool) {
 		} else if len(rq.B) > 0 {
 			framing = "Content-Length"
 		}
+		if sc.Overlap {
+			tags = append(tags, "overlapping-requests")
+		}
 		if l.Seq != nil {
 			tags = append(tags, "config-sequence")
 			if l.hasStep("getroutes") {
@@ -964,7 +1099,7 @@ func (g *gen) runOnce(sc *scenario) (err error, retry bool) {
 		}
 		desc := map[string]any{
 			"kind": "http-exchange", "listener": lname, "config": l,
-			"request":  map[string]any{"method": methods[rq.M], "path": paths[rq.P], "xv_headers": rq.H, "body": rq.B, "body_framing": framing},
+			"request":  map[string]any{"method": methods[rq.M], "path": paths[rq.P], "xv_headers": rq.H, "body": rq.B, "body_framing": framing, "overlapping_with": map[bool]int{true: len(sc.Reqs) - 1, false: 0}[sc.Overlap]},
 			"observed": map[string]any{"status": o.st, "xv_headers": o.oh, "body": o.ob, "events": o.ev, "proto": o.prot},
 			"https_builder_has_UsingMiddleWare": g.httpsMw, "tls_in_config": sc.TLSInCfg,
 			"event_legend": "0 enter i|1 exit i|2 obs method path hdrs|3 read bytes|4 w.Header()|5 logger request m p body|6 logger response m p status body|7 handler(index of AddRoute call)",
@@ -1232,6 +1367,37 @@ func main() {
 		must(g.run(sc))
 	}
 
+	// --- overlapping requests: N requests at once through the middleware chain; every handler waits until all N
+	//     handlers have been entered and only then reads its body.  Whatever the interleaving, each handler must see
+	//     exactly its own request and each client exactly its own response ---
+	overlapN, overlapRounds := 8, 1
+	if thorough {
+		overlapN, overlapRounds = 16, 6
+	}
+	ovProgs := [][]hop{
+		{{Kind: "barrier"}, {Kind: "echo"}},
+		{{Kind: "obs"}, {Kind: "barrier"}, {Kind: "read", K: 3}, {Kind: "set", K: 1, V: 7}, {Kind: "readall"}, {Kind: "write", Bs: []int{1, 2}}},
+	}
+	ovMws := [][]mwc{{{Kind: "logreq"}}, {{Kind: "logreq"}, {Kind: "logresp"}}, {{Kind: "rec", I: 1}, {Kind: "logresp"}, {Kind: "logreq"}}, {{Kind: "logresp"}}, {}}
+	for round := 0; round < overlapRounds; round++ {
+		for mi, mws := range ovMws {
+			for pi, pr := range ovProgs {
+				for ls := 0; ls < 2; ls++ {
+					l := &listenerCfg{Calls: []route{{M: 2, P: 1, Ops: pr}}, HasMw: true, Mw: mws, Direct: len(mws) == 1 && (mi+pi+ls)%2 == 0}
+					sc := &scenario{Group: "overlap", HTTP: l, HTTPS: l, Overlap: true, H2: (mi+pi+round)%2 == 0, TLSInCfg: (mi+ls)%2 == 0}
+					for k := 0; k < overlapN; k++ {
+						body := make([]int, 24+8*(k%3))
+						for i := range body {
+							body[i] = 10 + k + 16*round
+						}
+						sc.Reqs = append(sc.Reqs, request{Listener: ls, M: 2, P: 1, H: []int{3, 100 + k}, B: body, Unsized: (k+pi)%4 == 0})
+					}
+					must(g.run(sc))
+				}
+			}
+		}
+	}
+
 	// --- G1: routing, exhaustive: every subset of {GET,HEAD,POST} x {/p0,/p1}, every request of
 	//         {GET,HEAD,POST,PUT} x {/p0,/p1,/p2}, on both listeners ---
 	univ := [][2]int{{0, 0}, {1, 0}, {2, 0}, {0, 1}, {1, 1}, {2, 1}}
@@ -1479,6 +1645,7 @@ func main() {
 	g.w.Extra["scope"] = fmt.Sprintf("routing: all %d subsets of 6 (method,path) pairs x 12 requests x 2 listeners, %d repeated-AddRoute configs; middleware: all %d lists over {LogRequest,LogResponse,rec1,rec2} up to length %d x %d handler programs; %d random configurations x 8 requests; gRPC: subsets of %d descriptors; HTTPS with files and with tls.Config, HTTP/1.1 and HTTP/2",
 		1<<len(univ), nDup, len(lists), L, len(progs), nRand, len(descs))
 	g.w.Extra["scope"] = g.w.Extra["scope"].(string) + fmt.Sprintf("; second routing universe: all %d subsets of 5 pairs (GET/PUT /a/b, GET /a/b/c, DELETE /p0/q, OPTIONS /p0) x 20 requests; configuration call sequences: all %d sequences up to length %d over {3 AddRoute symbols, GetRoutes} with a GetRoutes and an AddRoute (adds via builder and via the config object, middleware set after reads), half of the random configurations as call sequences with getters and replaced middleware; request bodies with and without Content-Length (chunked / unsized h2)", 1<<len(univ2), len(seqs), SL)
+	g.w.Extra["scope"] = g.w.Extra["scope"].(string) + fmt.Sprintf("; overlapping requests: %d rounds x 5 middleware lists x 2 handler programs x 2 listeners, %d requests at once meeting at a barrier inside their handlers before reading", overlapRounds, overlapN)
 	g.w.Extra["read_accessor_calls_during_configuration"] = g.gettersCalled
 	g.w.Extra["servers_started"] = g.servers
 	g.w.Extra["requests_sent"] = g.requests
